@@ -11,7 +11,7 @@ _TRANSPARENT_LAST = {
     "deref": 0, "deref_mut": 0, "borrow": 0, "as_slice": 0, "as_bytes": 0, "to_vec": 0, "into_string": 0,
     "unchecked": 0, "u128": 0, "new": 0, "unwrap": 0, "expect": 0, "must_use": 0, "into_iter": 0,
     "iter": 0, "iter_mut": 0, "as_mut": 0, "cloned": 0, "copied": 0, "into_boxed_slice": 0, "into_vec": 0,
-    "as_mut_slice": 0,
+    "as_mut_slice": 0, "map_err": 0, "ok_or": 0, "ok_or_else": 0,
 }
 # `new` is transparent only for these single-field wrappers
 _NEW_OK = re.compile(r"(cosmwasm_std::\S*Uint128|cosmwasm_std::\S*Addr|alloc::boxed::Box|std::boxed::Box)")
@@ -53,6 +53,8 @@ def transparent_arg(callee):
         if re.search(r"(option::Option|result::Result)", g):
             return 0
         return None
+    if name in ("map_err", "ok_or", "ok_or_else"):
+        return 0 if re.search(r"(option::Option|result::Result)", g) else None
     if name == "unchecked":
         return 0 if "Addr" in g else None
     if name == "u128":
@@ -216,6 +218,19 @@ class Roots:
             hv = self.helper_inline(v)
             if hv is not None:
                 return self.roots(hv, path)
+            if cs.endswith("option::Option::map") and len(v[4]) == 2 and v[4][1][0] == "agg" and v[4][1][1] == "closure":
+                # opt.map(f)  ==  match opt { None => None, Some(x) => Some(f(x)) }
+                cf = self.P.fn(v[4][1][2])
+                if cf is not None and cf.body is not None:
+                    ex = [x for x in exit_sites(self.P, cf)]
+                    if len(ex) == 1:
+                        payload = proj(proj(v[4][0], ("v", "Some")), ("f", 0))
+                        rv = subst_params(ex[0][3], {("param", cf.path, 1): payload})
+                        some = ("agg", "adt", "std::option::Option::Some", ((0, rv),))
+                        none = ("agg", "adt", "std::option::Option::None", ())
+                        return self.with_captures(v[4][1]).roots(phi([none, some]), path) if True else set()
+            if cs.endswith("option::Option::transpose") and len(v[4]) == 1:
+                return self.roots(v[4][0], path)
             if cs.endswith("option::Option::unwrap_or") and len(v[4]) == 2:
                 return {"or(%s;%s)%s" % ("|".join(sorted(self.roots(v[4][0], (("v", "Some"), ("f", 0))))),
                                           "|".join(sorted(self.roots(v[4][1]))), path_str(path))}
@@ -233,12 +248,19 @@ class Roots:
             return {"C:%s@%s:bb%d%s" % (cs, v[1], v[2], path_str(_strip_wrapper(path)))}
         if k == "agg":
             p2 = path
-            if p2 and p2[0][0] == "v" and p2[0][1] in _WRAPPER_VARIANTS and v[1] == "adt" and \
-                    re.search(r"(result::Result::Ok|option::Option::Some|ops::ControlFlow::Continue)$", str(v[2])) and len(v[3]) == 1:
+            if p2 and p2[0][0] == "v" and p2[0][1] in _WRAPPER_VARIANTS and v[1] == "adt":
+                nm = str(v[2])
+                compatible = (nm.endswith("result::Result::Ok") and p2[0][1] in ("Ok", "Continue")) or \
+                             (nm.endswith("option::Option::Some") and p2[0][1] == "Some") or \
+                             (nm.endswith("ops::ControlFlow::Continue") and p2[0][1] == "Continue")
                 rest = p2[1:]
                 if rest and rest[0][0] == "f" and str(rest[0][1]) == "0":
                     rest = rest[1:]
-                return self.roots(v[3][0][1], rest)
+                if compatible and len(v[3]) == 1:
+                    return self.roots(v[3][0][1], rest)
+                if re.search(r"option::Option::(Some|None)$", nm) and p2[0][1] in ("Ok", "Continue"):
+                    # a transposed Option<Result<..>>: the Result layer is peeled, the Option stays
+                    return self.roots(v, rest)
             if p2 and p2[0][0] == "v":
                 # downcast to the aggregate's own variant is a no-op
                 if str(v[2]).endswith("::" + p2[0][1]):
@@ -433,7 +455,7 @@ def fail_edge_only_errors(P, fn, edge, sinks=()):
     """From edge=(b, t): every reachable definition of _0 is an error value and no sink block is reachable.
     Returns (ok, reason)."""
     body = fn.body
-    reach = body.reachable_from(edge[1])
+    reach = body.reachable_cp(edge[1])
     for (b, i, cls, v) in exit_sites(P, fn):
         if b in reach and cls != "err":
             return False, "success value %s assigned at bb%d reachable from the failing edge" % (cls if isinstance(cls, str) else cls[0], b)
@@ -706,9 +728,15 @@ def propagated(P, fn, callbb):
             continue
         v = c[1]
         via_branch = False
-        if v[0] == "call" and is_try_branch(v[3]) and v[4] and v[4][0] == cv:
+
+        def same(x):
+            # `r.map_err(f)` is Ok exactly when r is
+            while x != cv and x[0] == "call" and isinstance(x[3], str) and generic_path(x[3]).endswith("result::Result::map_err") and x[4]:
+                x = x[4][0]
+            return x == cv
+        if v[0] == "call" and is_try_branch(v[3]) and v[4] and same(v[4][0]):
             via_branch = True
-        elif v != cv:
+        elif not same(v):
             continue
         ty = discr_place_ty(fn, s)
         t = blk["term"]
